@@ -2,6 +2,7 @@ package promise
 
 import (
 	"context"
+	"github.com/aperturerobotics/util/verifhook"
 	"sync"
 )
 
@@ -32,6 +33,7 @@ func (o *Once[T]) Resolve(ctx context.Context) (T, error) {
 			return empty, context.Canceled
 		}
 
+		verifhook.Point(verifhook.OnceLock, o)
 		o.mtx.Lock()
 		prom := o.prom
 
@@ -43,6 +45,7 @@ func (o *Once[T]) Resolve(ctx context.Context) (T, error) {
 			go func() {
 				result, err := o.cb(ctx)
 				if err != nil {
+					verifhook.Point(verifhook.OnceLock, o)
 					o.mtx.Lock()
 					if o.prom == prom {
 						o.prom = nil
